@@ -32,7 +32,7 @@ BASE = dict(N=2, PR=2, MinStake=2, MaxVals=1, UnstakeTime=1, Window=2, MinSigned
             JailDur=1, MaxEvAge=1, FracDen=4, FracDS=2, FracDT=1, Fee=1, GenBal=(9, 9), GenVals=set(),
             DaoTokens=3, Dev=set(), Amts={2, 4}, Dts={1}, BurnNums={2}, MaxHeight=3, MaxTx=2, MaxExt=0,
             EvOn=False, MissOn=False, BadTxOn=False, Kinds={"stake", "unstake"}, SendTos={1}, Props={1},
-            AwardTos={1}, EvPowers={1}, EvUnknown=False, MaxRO=0)
+            AwardTos={1}, EvPowers={1}, EvUnknown=False, MaxRO=0, ParamOwner=1, ParamVals={1, 2})
 
 
 def cfg(**over):
@@ -84,11 +84,15 @@ PROFILES = {
                     AwardTos={1, 2, 5}, BurnNums={1, 2, 4}, Props={0, 1, 2}, MaxHeight=7, MaxTx=3, EvOn=True, MissOn=True, EvPowers={1, 2, 9})],
     },
     "C05": {
-        "mc": [cfg(N=3, GenBal=(9, 9, 9), MaxVals=2, Amts={2, 4}, Kinds={"stake", "unstake", "unjail"}, MaxHeight=3, MaxTx=2, MissOn=True, Window=1, MinSignedNum=1, MinSignedDen=1)],
+        "mc": [cfg(N=3, GenBal=(9, 9, 9), MaxVals=2, Amts={2, 4}, Kinds={"stake", "unstake", "unjail"}, MaxHeight=3, MaxTx=2, MissOn=True, Window=1, MinSignedNum=1, MinSignedDen=1),
+               cfg(N=3, GenBal=(9, 9, 9), GenVals=gv((1, 4), (2, 2), (3, 2)), MaxVals=3, Amts={2}, Kinds={"setparam", "unstake", "stake"}, ParamVals={1, 2, 3}, MaxHeight=3, MaxTx=2)],
         "sim": [cfg(N=4, GenBal=(9, 9, 9, 9), GenVals=gv((1, 4), (2, 4), (3, 2)), MaxVals=2, Amts={2, 3, 4, 6}, Kinds={"stake", "unstake", "unjail"}, MaxHeight=8, MaxTx=3,
                     MissOn=True, EvOn=True, EvPowers={1, 2}, MaxExt=1, BurnNums={1, 2}, Props={0, 1, 2}, Dts={0, 1, 2}),
                 cfg(N=3, GenBal=(9, 9, 9), GenVals=gv((1, 2), (2, 2), (3, 2)), MaxVals=1, Amts={2, 4}, Kinds={"stake", "unstake", "unjail"}, MaxHeight=8, MaxTx=3,
-                    MissOn=True, EvOn=True, EvPowers={1}, UnstakeTime=0)],
+                    MissOn=True, EvOn=True, EvPowers={1}, UnstakeTime=0),
+                # MaxValidators changed by governance between blocks (below and above the number of candidates)
+                cfg(N=4, GenBal=(9, 9, 9, 9), GenVals=gv((1, 6), (2, 4), (3, 4), (4, 2)), MaxVals=2, Amts={2, 4}, Kinds={"setparam", "stake", "unstake"}, ParamVals={1, 2, 3, 4},
+                    MaxHeight=7, MaxTx=3, MissOn=True, Window=2)],
     },
     "C06": {
         "mc": [cfg(N=2, MaxVals=2, UnstakeTime=1, Amts={1, 2, 9}, Kinds={"stake", "unstake", "unjail"}, MaxHeight=4, MaxTx=2, Dts={0, 1}, EvOn=True, EvPowers={1}),
@@ -97,6 +101,9 @@ PROFILES = {
         "sim": [cfg(N=3, GenBal=(9, 9, 3), GenVals=gv((1, 2)), MaxVals=2, UnstakeTime=2, Amts={1, 2, 3, 9}, Kinds={"stake", "unstake", "unjail"}, MaxHeight=9, MaxTx=3, Dts={0, 1, 2},
                     EvOn=True, MissOn=True, EvPowers={1, 2}, MaxExt=1, BurnNums={1, 2, 4}),
                 cfg(N=4, GenBal=(9, 9, 9, 9), MaxVals=4, UnstakeTime=1, Amts={2, 4}, Kinds={"stake", "unstake"}, MaxHeight=7, MaxTx=4, Dts={0, 1, 3}),
+                # the minimum stake itself is changed by governance (MinStakeHeld is then suspended; everything else still conforms)
+                cfg(N=3, GenBal=(9, 9, 9), GenVals=gv((1, 4), (2, 2)), MaxVals=3, UnstakeTime=1, Amts={2, 3}, Kinds={"setparam", "stake", "unstake", "unjail"}, ParamVals={2},
+                    MaxHeight=6, MaxTx=3, Dts={1}, MissOn=True, Window=1, MinSignedNum=1, MinSignedDen=1, FracDT=2),
                 # several validators in the same unstaking-queue slot, forced unstakes (evidence) while they wait
                 cfg(N=3, GenBal=(9, 9, 9), GenVals=gv((1, 4), (2, 4), (3, 2)), MaxVals=3, UnstakeTime=3, Amts={2}, Kinds={"stake", "unstake"}, MaxHeight=6, MaxTx=3, Dts={1},
                     EvOn=True, EvPowers={1})],
@@ -160,8 +167,8 @@ def app_cfg(c, seed):
     return {"app": {"N": c["N"], "PR": c["PR"], "MinStake": c["MinStake"], "MaxVals": c["MaxVals"], "UnstakeTime": c["UnstakeTime"],
                     "Window": c["Window"], "MinSigned": dec(c["MinSignedNum"], c["MinSignedDen"]), "JailDur": c["JailDur"],
                     "MaxEvAge": c["MaxEvAge"], "FracDS": dec(c["FracDS"], c["FracDen"]), "FracDT": dec(c["FracDT"], c["FracDen"]),
-                    "FracDen": c["FracDen"], "Fee": c["Fee"], "FeeMult": 1, "Bal": list(c["GenBal"]), "GVals": gvals,
-                    "DaoTokens": c["DaoTokens"], "DaoOwner": 1, "AclOwner": [1], "KeySeed": seed},
+                    "FracDen": c["FracDen"], "Fee": c["Fee"], "GovFee": max(c["Fee"], 0) or -1, "FeeMult": 1, "Bal": list(c["GenBal"]), "GVals": gvals,
+                    "DaoTokens": c["DaoTokens"], "DaoOwner": 1, "AclOwner": [c["ParamOwner"]], "KeySeed": seed},
             "fracDen": c["FracDen"]}
 
 
